@@ -4,7 +4,7 @@ import math
 
 ID = "C14"
 THEOREM_MODULE = "SimVerif.Props.C14"
-THEOREM_MODULES = ["SimVerif.Props.C14", "SimVerif.Tie.Nms", "SimVerif.Props.C14s"]
+THEOREM_MODULES = ["SimVerif.Props.C14", "SimVerif.Tie.Nms", "SimVerif.Props.C14s", "SimVerif.Tie.Cache"]
 NONTRIVIAL_FLAGS = {"dropped", "multi-kept", "rank-tie", "filtered"}
 RULE = ("requests `nms n (aspect height score xc yc angle stale)*n thr sthr`: 0..40 boxes (10% of them with a vertex cache generated under another geometry, clustered, sparse, duplicated, nested, "
         "rotated, invalid mixed in), nms threshold in (0,1), score threshold none/below/inside/above the score range; "
